@@ -723,6 +723,12 @@ def rule_sentinel(m, rep, count=True):
     Tb = Terms(b)
     ra = norm(Tb.call_term(rn))[2][0]
     na = norm(Tb.call_term(nw))[2][0]
+    def _unclone(t_):
+        # a clone of the thread's Arc<worker> is a handle to the same worker (a sentinel that owns its handle)
+        while term_callee_is(peel(t_), '<alloc::sync::Arc as core::clone::Clone>::clone'):
+            t_ = peel(t_)[2][0]
+        return t_
+    ra, na = _unclone(ra), _unclone(na)
     okw = peel_root(ra) == peel_root(na) and peel_root(ra)[0] == 'param'
     rep.ob('R1', 'sentinel-guards-the-running-worker', okw, b.where(rn), 'sentinel and run() use the same worker')
 
